@@ -416,3 +416,119 @@ class ContainsSpecial(Contract):
 
     def frame_ok(self, I, inp, obj, name):
         return False
+
+
+# ----------------------------------------------------------------------------------------------- concatenation
+def lits_app(a, b):
+    """LEMMA C05.lemma.lits_app (by induction on b from the right)"""
+    return M.lits(z3.Concat(a, b)) == z3.Concat(M.lits(a), M.lits(b))
+
+
+@register
+class LitsAppLemma(Lemma):
+    id = "C05.lemma.lits_app"
+    props = ("C05", "C03")
+    assumed = ["structural induction over strings (base + step discharged by the solver)"]
+
+    def goals(self):
+        a, b, c = z3.Strings("a b c")
+        return [("lits(a ++ b) == lits(a) ++ lits(b): base (b empty)", [M.lits_nil()], lits_app(a, z3.StringVal(""))),
+                ("lits(a ++ b) == lits(a) ++ lits(b): step (b == b' ++ c, |c| == 1)", [z3.Length(c) == 1, lits_app(a, b), M.lits_snoc(z3.Concat(a, b), c), M.lits_snoc(b, c)], lits_app(a, z3.Concat(b, c)))]
+
+
+class MergeLoop(LoopSpec):
+    modifies = {"res": ("seq", M.PART)}
+
+    def inv(self, I, env, done, rest, total):
+        res = ops.seq_term(I, env["res"], M.PART)
+        s0 = env["self"].fields["s"].t
+        return [("atoms(res) ++ atoms(unread) == atoms(parts)", z3.Concat(M.atoms(res), M.atoms(rest)) == M.atoms(s0)), ("res is not empty", z3.Length(res) >= 1)]
+
+    def hints(self, I, env, phase, x, done, rest2, total):
+        P = M.PartSort()
+        res = ops.seq_term(I, env["res"], M.PART)
+        s0 = env["self"].fields["s"].t
+        n = z3.Length(res)
+        if phase == "entry":
+            first = s0[0]
+            tail = z3.Extract(s0, 1, z3.Length(s0) - 1)
+            return [z3.Implies(z3.Length(s0) > 0, s0 == z3.Concat(z3.Unit(first), tail)), M.atoms_cons(first, tail), M.atoms_snoc(z3.Empty(M.parts_sort()), first), M.atoms_nil()]
+        if phase == "pre":
+            init, last = z3.Extract(res, 0, n - 1), res[n - 1]
+            merged = P.PStr(z3.Concat(P.str(last), P.str(x)))
+            return [M.atoms_cons(x, rest2), res == z3.Concat(init, z3.Unit(last)), M.atoms_snoc(init, last), M.atoms_snoc(init, merged), M.atoms_snoc(res, x), lits_app(P.str(last), P.str(x))]
+        if phase == "exit":
+            return [M.atoms_nil()]
+        return []
+
+
+# NOT registered: the preservation obligation of the merge branch stays `unknown` in z3 and cvc5 (sequence theory with nth / extract terms),
+# i.e. undecided - _merge_strs therefore remains an ASSUMED contract of the C03 wildcard-modifier proofs (listed there).
+class MergeStrs(Contract):
+    """_merge_strs joins adjacent text parts; the atoms (characters, wildcards, placeholders) are unchanged"""
+    id = "C05.SigmaString._merge_strs"
+    target = "sigma.types:SigmaString._merge_strs"
+    props = ("C05", "C03")
+    assumed = ["lemma C05.lemma.lits_app is instantiated in the loop"]
+
+    def setup(self, E):
+        M.install_part_adt(E)
+        E.loop_invariants[(self.target, 0)] = MergeLoop()
+
+    def args(self, I):
+        me = M.mk_sigma_string(I, "self")
+        return {"self": me, "args": [], "s0": me.fields["s"].t}
+
+    def post(self, I, inp, r):
+        me = inp["self"]
+        I.ctx.require(r is me, "returns the string itself")
+        I.ctx.require(M.atoms(ops.seq_term(I, me.fields["s"], M.PART)) == M.atoms(inp["s0"]), "atoms(parts after) == atoms(parts before)")
+
+    def frame_ok(self, I, inp, obj, name):
+        return obj is inp["self"] and name == "s"
+
+
+class _Concat(Contract):
+    props = ("C05", "C03")
+    right = True
+    cases = ("part", "string")
+    assumed = ["_merge_strs contract (atoms unchanged) used as summary"]
+
+    def setup(self, E):
+        M.install_part_adt(E)
+
+        def s_merge(I, so, a, k):
+            old = ops.seq_term(I, so.fields["s"], M.PART)
+            new = SList(I.fresh("merged", "seq", elem=M.PART))
+            I.ctx.assume(M.atoms(new.sym.t) == M.atoms(old))
+            so.fields["s"] = new
+            return so
+        E.summaries["sigma.types:SigmaString._merge_strs"] = s_merge
+        E.summaries["sigma.types:SigmaString.__init__"] = lambda I, so, a, k: (so.fields.__setitem__("s", []), so.fields.__setitem__("original", ""))[0]
+
+    def args(self, I, case):
+        me = M.mk_sigma_string(I, "self")
+        if case == "part":
+            other, ot = arg_part_union(I, "other")
+            oatoms = M.part_atoms(ot)
+        else:
+            if not self.right:
+                other, ot = arg_part_union(I, "other")
+                oatoms = M.part_atoms(ot)
+            else:
+                other = M.mk_sigma_string(I, "other")
+                oatoms = M.atoms(other.fields["s"].t)
+        return {"self": me, "args": [other], "oatoms": oatoms, "satoms": M.atoms(me.fields["s"].t), "s0": me.fields["s"].t, "other": other}
+
+    def post(self, I, inp, r):
+        c = I.ctx
+        ok = isinstance(r, SObj) and r is not inp["self"] and "s" in r.fields
+        c.require(ok, "returns a new SigmaString")
+        if ok:
+            # atoms of a concatenation of part lists (definition of atoms from the right / left, instantiated)
+            want = z3.Concat(inp["satoms"], inp["oatoms"]) if self.right else z3.Concat(inp["oatoms"], inp["satoms"])
+            c.require(M.atoms(ops.seq_term(I, r.fields["s"], M.PART)) == want, "atoms(result) == atoms(left operand) ++ atoms(right operand)")
+        c.require(ops.mk_bool_term(ops.py_eq(I, Sym(inp["self"].fields["s"].t if isinstance(inp["self"].fields["s"], Sym) else ops.seq_term(I, inp["self"].fields["s"], M.PART), "seq", M.PART), Sym(inp["s0"], "seq", M.PART))), "the operand is not modified")
+
+    def frame_ok(self, I, inp, obj, name):
+        return False
